@@ -170,6 +170,27 @@ example : runBudgets (cmpStep .lt [1, 2] [1, 3]) [1, 1, 1, 1, 1] {} =
     .finished true (Regs.after {} [1, 2] [1, 3]) :=
   ((C17_all_budgets [1, 2] [1, 3] {} rfl rfl (by decide) (by decide) [1, 1, 1, 1, 1] (by decide)).2.1 .lt)
 
+/-- frame condition of `..`: the result is a NEW object holding `a ++ b`; every object that existed
+    before — the two operands included, also when they are the same object (`s .. s`) — still holds
+    exactly its bytes afterwards, at every slicing.  Strings are immutable values. -/
+theorem C17_concat_frame (h : Heap) (p q : Nat) (a b : Bytes) (ks : List Nat) (r : Regs)
+    (hp : h[p]? = some a) (hq : h[q]? = some b) (h1 : r.idx1 = 0) (h2 : r.idx2 = 0)
+    (va : utf8Valid a = true) (vb : utf8Valid b = true) (hk : a.length + b.length + 1 ≤ ks.sum) :
+    ∃ r', concatHeap h p q ks r = some (h ++ [a ++ b], h.length, r') ∧ r'.idx1 = 0 ∧ r'.idx2 = 0 ∧
+      (h ++ [a ++ b])[h.length]? = some (a ++ b) ∧
+      ∀ i, i < h.length → (h ++ [a ++ b])[i]? = h[i]? := by
+  have hrun := (C17_all_budgets a b r h1 h2 va vb ks hk).2.2
+  refine ⟨{ r with op1 := a, op2 := b, builder := [], idx1 := 0, idx2 := 0 }, ?_, rfl, rfl, by simp, ?_⟩
+  · unfold concatHeap
+    simp only [hp, hq, hrun]
+  · intro i hi
+    exact List.getElem?_append_left hi
+
+example : ∃ r', concatHeap [[105, 100], [55]] 0 0 [2, 2, 2] {} =
+    some ([[105, 100], [55]] ++ [[105, 100] ++ [105, 100]], 2, r') :=
+  (C17_concat_frame [[105, 100], [55]] 0 0 [105, 100] [105, 100] [2, 2, 2] {} rfl rfl rfl rfl
+    (by decide) (by decide) (by decide)).imp fun _ h => h.1
+
 /-- concatenation takes exactly `|a| + |b| + 1` steps: with one step less it is still in flight
     (so the bound above is tight and a budget boundary really can fall inside the instruction) -/
 theorem C17_concat_steps_exact (a b : Bytes) (r : Regs) (h1 : r.idx1 = 0) (h2 : r.idx2 = 0) :
